@@ -5,20 +5,22 @@
 // they returned. It holds no opinion about the results.
 //
 // Script lines (inputs only; results are added to the recorded line):
-//   reset   kind=memory|etcd|snowflake, masters, vols, pre=[{vol,keys}]
-//   hb      m, vol           heartbeat of vol's server: SetMax(max key in vol)   -> v
-//   setmax  m, v             SetMax(v) with a value from outside the tracked volumes
-//   next    m, vol, n={c,s}  NextFileId(c + s*DefaultEtcdSteps)                  -> cnt, start
-//   write   a, j             the client writes key start(a)+j of assignment a     -> vol, k
-//   leader  m, fresh         leadership moves to m (fresh: a new sequencer object)
-//   tick                     2 ms of real time pass (snowflake)
-//   nextvid m                topology.NextVolumeId()                             -> id
-//   volreg  m, id            a heartbeat registers existing volume id at m
-//   call    p, op, m, vol, n, v, gate   start of a concurrent operation; consecutive
-//                            call lines form one goroutine storm (one goroutine per p);
-//                            gate=true: run alone and park inside the etcd Get
-//   release p                let the parked operation of p continue
-//   ret                      (recorded only) p, start
+//
+//	reset   kind=memory|etcd|snowflake, masters, vols, pre=[{vol,keys}]
+//	hb      m, vol           heartbeat of vol's server: SetMax(max key in vol)   -> v
+//	setmax  m, v             SetMax(v) with a value from outside the tracked volumes
+//	next    m, vol, n={c,s}  NextFileId(c + s*DefaultEtcdSteps)                  -> cnt, start
+//	write   a, j             the client writes key start(a)+j of assignment a     -> vol, k
+//	leader  m, fresh         leadership moves to m (fresh: a new sequencer object)
+//	tick                     2 ms of real time pass (snowflake)
+//	nextvid m                topology.NextVolumeId()                             -> id
+//	volreg  m, id            a heartbeat registers existing volume id at m
+//	call    p, op, m, vol, n, v, gate   start of a concurrent operation; consecutive
+//	                         call lines form one goroutine storm (one goroutine per p);
+//	                         gate=true: run alone and park inside the etcd Get
+//	release p                let the parked operation of p continue
+//	ret                      (recorded only) p, start
+//
 // Keys are recorded through an order preserving map that caps gaps at 2^20
 // (identity for small values; snowflake ids are ~2^60 and TLC integers 32 bit).
 package main
